@@ -405,7 +405,7 @@ RULE_ADDENDA = {
            "the cases; oracle over the bytes each connection received (strict reference decoder, payload equality, success only "
            "when complete; time budgets are inconclusive, never violations). Non-trivial there: a reconnect, a connection which "
            "ended inside a packet, or a request which failed. cancelledWhileWaiting: 1-3 Publish calls with a quit channel wait for the connection and are cancelled, then 2-4 publishes at once. One ending in four: Disconnect (quit fired, firing later, or nil) while a writer is parked inside a packet. Behind the recording Persistence double sits, per case, its own map (5 in 8), the library's in-memory map (2 in 8) or mqtt.FileSystem on a scratch directory (1 in 8). One case in five runs on a session made the way VolatileSession makes it (the library's map, no checksum layer). wanderingPingresp (an unsolicited PINGRESP, possibly overtaking a PINGREQ in transit); a parked Write may fail once released; no more successful Pings than complete PINGREQ packets.",
-    'C09': "Also: the over-the-limit payload class is drawn in 1 of 8 quick-tier cases. The over-the-limit string class also comes as 21,846 three-byte characters (over 65,535 bytes, under 65,535 characters). TestC09MaxSize: the six publish methods x topic lengths {1,2,7,100,65535} x remaining length 268,435,455 -7..+3 on an offline client with a fired quit (nothing of the 256 MiB is read): up to the limit never IsDeny, beyond it IsDeny. Strings with U+0000 behind a multi-byte character. An adoption with an illegal Config finds a junk record in the store (1 in 2): refused without touching it.",
+    'C09': "Also: the over-the-limit payload class is drawn in 1 of 8 quick-tier cases. The over-the-limit string class also comes as 21,846 three-byte characters (over 65,535 bytes, under 65,535 characters). TestC09MaxSize: the six publish methods x topic lengths {1,2,7,100,65535} x remaining length 268,435,455 -7..+3 on an offline client with a fired quit (nothing of the 256 MiB is read): up to the limit never IsDeny, beyond it IsDeny. Strings with U+0000 behind a multi-byte character. An adoption with an illegal Config finds a junk record in the store (1 in 2): refused without touching it. TestC09Requests: one valid request in six meets a write deadline which expires once, 1-3 bytes into its packet (tolerated by the client); what is emitted must still be that one packet.",
     'C10': "Also: reader states skipping-dup-big (discarding the payload of a retransmitted exactly-once message larger than the "
            "read buffer, tail outstanding) and holding-big-tail-outstanding; failure 'silence' (nothing but PauseTimeout); in state handshake the broker may stay silent for good. Extra "
            "invariant: once ReadSlices reported an error while reading from a connection, no later ReadSlices reads from it. Reader state connack-arrives-under-slow-save (a persisted publish is inside a parked Persistence.Save when the CONNACK is released). mid-packet-stall prefixes also end inside the remaining-length bytes. Behind the recording Persistence double sits, per case, its own map (5 in 8), the library's in-memory map (2 in 8) or mqtt.FileSystem on a scratch directory (1 in 8). One case in five runs on a session made the way VolatileSession makes it (the library's map, no checksum layer). Failed connects include Dialer errors which wrap context.Canceled / context.DeadlineExceeded. Failure read-fails-close-is-slow: the peer half-closes, the read routine's Close of the connection is held up, a writer which held the lock completes and a new Subscribe goes out meanwhile: it must be released by that loss too. Failed attempts include a Dialer which returns the bare or wrapped context.Canceled while the client is open: that is a failed attempt like any other (redial follows), not the end of the client. One case in four runs without minimum wait (ReconnectWaitMin negative): ReadBackoff channels must close within ReconnectWaitMax + 600 ms (measured twice before it counts).",
